@@ -240,11 +240,17 @@ class C02(core.PropertyCheck):
         try:
             res = pp.run(pages, cfg)
         except Exception as e:
-            tb = traceback.extract_tb(e.__traceback__)
-            frames = [f for f in tb if "/snooty/" in f.filename]
-            last = frames[-1] if frames else tb[-1]
-            return {"exc": type(e).__name__, "msg": str(e)[:120], "where": f"{last.filename.split('/snooty/')[-1]}:{last.name}",
-                    "line": last.lineno}
+            where, line = "?", 0
+            t = e.__traceback__
+            while t is not None:
+                fr = t.tb_frame
+                if "/snooty/" in fr.f_code.co_filename:
+                    slf = fr.f_locals.get("self")
+                    cls = (type(slf).__name__ + ".") if slf is not None else ""
+                    where = f"{fr.f_code.co_filename.split('/snooty/')[-1]}:{cls}{fr.f_code.co_name}"
+                    line = t.tb_lineno
+                t = t.tb_next
+            return {"exc": type(e).__name__, "msg": str(e)[:120], "where": where, "line": line}
         missing = [f for f in case["files"] if f.endswith(".txt") and n.FileId(f) not in res.pages]
         return {"exc": None, "missing_pages": missing, "ndiag": sum(len(v) for v in res.diagnostics.values()),
                 "has_meta": isinstance(res.metadata, dict)}
@@ -290,7 +296,8 @@ class C02(core.PropertyCheck):
         if impl.get("parse_exc"):
             return None
         if impl["exc"]:
-            return f"postprocessing raised {impl['exc']} at {impl['where']}"
+            msg = impl["msg"] if impl["exc"] == "KeyError" else ""
+            return f"postprocessing raised {impl['exc']} at {impl['where']} {msg}".strip()
         if impl["missing_pages"]:
             return f"pages not delivered: {impl['missing_pages']}"
         return None
@@ -306,7 +313,7 @@ class C02(core.PropertyCheck):
     def branch_tags(self, case, model, impl):
         tags = [case["kind"]]
         if impl.get("exc"):
-            tags.append(f"exc:{impl['exc']}@{impl.get('where')}")
+            tags.append(f"exc:{impl['exc']}@{impl.get('where')}:{impl.get('line')}:{impl.get('msg', '')[:40]}")
         if impl.get("parse_exc"):
             tags.append("parse_exc:" + impl["parse_exc"])
         if case["kind"] == "project":
